@@ -124,10 +124,10 @@ func ensureCanUseORConstraint(node schema.Node) {
 		return
 	}
 
-	ssl := node.Constraint(constraint.TypesListConstraintType).(*constraint.TypesList) //nolint:errcheck // We are sure about that.
-	if ssl.HasUserTypes() {
-		panic(errors.ErrInvalidChildNodeTogetherWithOrRule)
-	}
+	// The value is a type shortcut and the rule was written by hand: whatever
+	// the rule lists, user types or JSON types, it would take the place of the
+	// type the value names (and the value is no example of a JSON type).
+	panic(errors.ErrInvalidChildNodeTogetherWithOrRule)
 }
 
 func checkBranchNodeWithOrConstraint(schemaNode schema.Node, jsonNode schema.BranchNode) {
